@@ -87,6 +87,9 @@ func (c14) Gen(r *sim.Rand, tier string, run uint64) *sim.Scenario {
 	if r.Chance(1, 3) {
 		sc.Cfg["sink"] = int64(r.Range(1, 3))
 		sc.Cfg["sinkk"] = int64(r.Intn(40))
+		if kind == 0 && r.Chance(1, 6) {
+			sc.Cfg["sink"] = sim.SinkPanic // the Logger panics at write k: the caller's own business, on the caller's goroutine
+		}
 	}
 	sc.Cfg["rc"] = int64(r.Intn(2))
 	if sc.Cfg["sink"] == 0 && r.Chance(1, 4) {
@@ -187,7 +190,11 @@ func (c14) Exec(sc *sim.Scenario, env *sim.Env) *sim.Violation {
 }
 
 func sinkFor(env *sim.Env, sc *sim.Scenario) (io.Writer, *sim.SimSink, *sim.RCSink) {
-	ss := sim.NewSink(env, int(sc.C("sink"))&3, int(sc.C("sinkk")))
+	plan := int(sc.C("sink"))
+	if plan != sim.SinkPanic {
+		plan &= 3
+	}
+	ss := sim.NewSink(env, plan, int(sc.C("sinkk")))
 	if sc.C("rc") == 2 && ss.Plan == sim.SinkOK {
 		sz := int(sc.C("bufsz"))
 		if sz < 16 {
@@ -239,11 +246,22 @@ func c14sys(sc *sim.Scenario, env *sim.Env) *sim.Violation {
 	loadSystem(smA, sc)
 	c14hooks(smA, sc, st)
 	w, ss, rc := sinkFor(env, sc)
+	panicsBefore := sim.LibraryGoroutinePanics()
 	smA.S.Logger = w
 	var retA bool
 	pA, pvA := sim.RecoverLib(func() { retA = smA.S.RunUntil(target, budget) })
 	flushLogger(w)
 	st.ProbeIf(sc.C("rc") == 2, "logger_is_bufio_writer")
+	if ss.Plan == sim.SinkPanic {
+		// the caller's Logger panicked: whatever RunUntil makes of it, the panic belongs on the
+		// goroutine that called RunUntil (where the caller can recover it), not on one the
+		// library started (where it terminates the process, and every other instance with it)
+		if n := sim.LibraryGoroutinePanics(); n > panicsBefore {
+			return &sim.Violation{Oracle: "caller_panic_on_library_goroutine", Step: -1, Msg: fmt.Sprintf("the Logger's panic (write %d) was raised on a goroutine the library started itself: no caller can recover it, the process dies", ss.K)}
+		}
+		st.ProbeIf(ss.Panicked, "logger_panicked")
+		return nil
+	}
 	regsA := cpuA{&smA.S.CPU}.Regs()
 	// world B: untraced
 	smB, err := NewSysMachine(env, 1, mkHole())
@@ -452,6 +470,8 @@ func c14alt(sc *sim.Scenario, env *sim.Env) *sim.Violation {
 	ss := sim.NewSink(env, int(sc.C("sink"))&3, int(sc.C("sinkk"))*4)
 	var strLines []string
 	var kept, keptCopy [][]byte
+	var acc []byte
+	accBroken := ""
 	run := func(traced bool) (Regs, *SimMem, []preStep, [][]byte, bool, string) {
 		mem := mkMem()
 		var mem2 *SimMem
@@ -495,7 +515,21 @@ func c14alt(sc *sim.Scenario, env *sim.Env) *sim.Violation {
 					}
 				}
 				recs = append(recs, preStep{r, ins})
-				if ca, ok := mc.CPU.(cpuA); ok && traced && i%2 == 1 {
+				if ca, ok := mc.CPU.(cpuA); ok && traced && i%3 == 2 {
+					// a caller that accumulates the whole trace in one growing buffer
+					prev := append([]byte{}, acc...)
+					acc = ca.TraceAppend(acc)
+					if len(acc) < len(prev) || string(acc[:len(prev)]) != string(prev) {
+						accBroken = fmt.Sprintf("appending the line of step %d to a %d-byte trace changed what was already in it", i, len(prev))
+					}
+					got := append([]byte{}, acc[min(len(prev), len(acc)):]...)
+					_, _ = ss.Write(got)
+					lines = append(lines, got)
+					if cap(acc) > 4096 {
+						acc = append([]byte{}, acc[len(acc)-min(len(acc), 37):]...) // keep it small, with little spare capacity
+					}
+					st.Probe("trace_accumulated_in_one_buffer")
+				} else if ca, ok := mc.CPU.(cpuA); ok && traced && i%2 == 1 {
 					// a caller that offers no buffer and keeps what it gets back
 					got := ca.TraceNoBuffer()
 					kept = append(kept, got)
@@ -541,6 +575,9 @@ func c14alt(sc *sim.Scenario, env *sim.Env) *sim.Violation {
 	}
 	if d := regsA.Diff(regsB, true); d != "" {
 		return &sim.Violation{Oracle: "tracing_perturbs_registers", Step: -1, Msg: "cpualt traced vs untraced final state: " + d}
+	}
+	if accBroken != "" {
+		return &sim.Violation{Oracle: "trace_line_overwritten", Step: -1, Msg: accBroken}
 	}
 	for i := range kept {
 		if string(kept[i]) != string(keptCopy[i]) {
